@@ -14,6 +14,7 @@ def check(tree, rep, tier='quick', seed=0):
     rep.assumptions = ['NOT decided: that on a successful run every scheduled line received a value (needs the tracker algorithm, C06) and which lines the data-dependent demand consists of']
     core = get_core(tree)
     R.k36_mutable_defaults_untouched(core, rep)   # nothing survives from one solve / fill to the next through a default argument
+    R.k40_state_belongs_to_the_instance(core, rep)   # ... nor through a table written in a class body
     R.k0_solve_shape(core, rep)          # every requested form is known before the first line is attempted
     from ..linerules import l4_no_demand_inside_assert
     l4_no_demand_inside_assert(tree, rep)   # what a definition demands does not depend on the interpreter's -O switch
